@@ -223,6 +223,30 @@ func mkIte(c *Cnd, a, b *Ex) *Ex {
 	if a.String() == b.String() {
 		return a
 	}
+	// rounding half away from zero spelled out on the parts of math.Modf:
+	// |frac(y)| < 1/2 ? trunc(y) : trunc(y) + copysign(1, frac(y))  is  math.Round(y)
+	// (both parts are exact and carry y's sign; beyond 2^52 the fraction is 0)
+	if c.Kind == "cmp" && c.Op == "<" && c.R.Op == "const" && c.R.C.Cmp(big.NewRat(1, 2)) == 0 &&
+		c.L.Op == "call" && c.L.Name == "Abs" && len(c.L.Args) == 1 && c.L.Args[0].Op == "call" && c.L.Args[0].Name == "Frac" && len(c.L.Args[0].Args) == 1 {
+		y := c.L.Args[0].Args[0]
+		tr := mkCall("Trunc", y)
+		up := mkSum(tr, mkCall("Copysign", mkConst(big.NewRat(1, 1)), mkCall("Frac", y)))
+		if a.String() == tr.String() && b.String() == up.String() {
+			return mkCall("Round", y)
+		}
+	}
+	// the branch form of a cap: x <= y ? x : y is min(x, y), x <= y ? y : x is
+	// max(x, y) (as real-valued functions; with < alike, the operands being equal
+	// where the two forms could differ)
+	if c.Kind == "cmp" && (c.Op == "<=" || c.Op == "<") {
+		l, r := c.L.String(), c.R.String()
+		switch {
+		case a.String() == l && b.String() == r:
+			return mkCall("min", c.L, c.R)
+		case a.String() == r && b.String() == l:
+			return mkCall("max", c.L, c.R)
+		}
+	}
 	return &Ex{Op: "ite", Cond: c, Args: []*Ex{a, b}}
 }
 
